@@ -26,7 +26,7 @@ import (
 	"verifharness/lib/txgen"
 )
 
-var soloMu sync.Mutex
+var soloOnce sync.Once
 
 // Bookkeeper is the single bookkeeper of every iddrv ledger (the solo configuration is
 // process-global, so all ledgers of one process must share it).
@@ -40,10 +40,13 @@ type Env struct {
 }
 
 func NewEnv(dir string) (*Env, error) {
-	soloMu.Lock()
-	defer soloMu.Unlock()
-	c, err := chain.NewSolo(dir, Bookkeeper())
-	if err != nil {
+	// The process-global solo configuration is written once; after that ledgers are created
+	// concurrently (chain.Chain.Open only reads the configuration; creating the stores and
+	// executing the genesis block is the expensive part and must not be serialised).
+	bk := Bookkeeper()
+	soloOnce.Do(func() { chain.SetupSoloConfig(bk) })
+	c := &chain.Chain{Dir: dir, BK: bk, BKs: []*account.Account{bk}} // as chain.NewSolo
+	if err := c.Open(); err != nil {
 		return nil, err
 	}
 	e := &Env{C: c, nonce: 5000}
